@@ -1,4 +1,4 @@
-from common import ENUMX_ASSUME
+from common import ENUMX_ASSUME, SCHEDX_ASSUME
 
 CHECK = {'pkgs': ['dkg'],
  'libs': ['enumx', 'schedx', 'vsync'],
@@ -6,25 +6,59 @@ CHECK = {'pkgs': ['dkg'],
  'run': 'TestVerifC11',
  'level': 'exploration',
  'engine': 'enumx',
- 'technique': 'small-scope exhaustive enumeration of ceremony configurations and round-barrier arrival/release orders: the real '
-              'runFrostParallel is run by n in-process nodes over a harness fTransport (ordered barrier, messages through the real frostp2p '
-              'wire conversion), and the outputs of all nodes are judged with the real tbls primitives; candidates are re-run 3x (fresh '
-              'randomness) before they are reported',
- 'claim': 'every (n,t,v) with n in 3..5 (thorough 3..8), t in 2..n, v in 1..2 (thorough 1..4) validators; for each the arrival=release orders '
-          'of the two round barriers: n<=4 all n! orders of round 1 (round 2 identity), all n! orders of round 2 (round 1 identity) and '
+ 'technique': 'small-scope exhaustive enumeration against the real code, two parts. Part one: ceremony configurations and round-barrier '
+              'arrival/release orders; the real runFrostParallel is run by n in-process nodes over a harness fTransport (ordered barrier, messages '
+              'through the real frostp2p wire conversion). Part two: the PRODUCTION transport is in the loop - every node gets the real '
+              'bcast.New component and the real newFrostP2P (real newBcastCallback/newP2PCallback with their dedup maps and validation, real '
+              'channels, real frostP2P.Round1/Round2 that collect and count messages) on an in-memory libp2p host; the signature collection of '
+              'a broadcast is a synchronous call into the peers\' real handlers, every one-way message (signed bcast message of round 1/2, round 1 '
+              'p2p shares, sent by the real p2p.Send) is captured and handed byte for byte to the recipient\'s real p2p stream handler by a '
+              'controller that prescribes each recipient\'s arrival order; one ceremony = one testing/synctest bubble with quiescence after every '
+              'delivery (no timers). Deviation bounding over the delivery alphabet (0, then 1, thorough 2 deviations); for a message delivered '
+              'by two threads at once the interleavings of the two handler calls are enumerated by the schedx engine (dkg/frostp2p.go built '
+              'with the vsync lock shim: every lock acquisition and every unlock of the callbacks is a scheduling point). In both parts the '
+              'outputs of all nodes are judged with the real tbls primitives; candidates are re-run before they are reported (3x fresh '
+              'randomness; concurrent cases 5x the same interleaving)',
+ 'claim': 'PART ONE: every (n,t,v) with n in 3..5 (thorough 3..8), t in 2..n, v in 1..2 (thorough 1..4) validators; for each the arrival=release '
+          'orders of the two round barriers: n<=4 all n! orders of round 1 (round 2 identity), all n! orders of round 2 (round 1 identity) and '
           'reversed/reversed; n>=5 all rotations of the identity and of the reversed order per round (other round identity) and '
-          'reversed/reversed; map iteration pinned to rotation 0, 1 or left stock-random, cyclically over the cases. Oracle per validator: '
-          'equal group key and equal public shares 1..n on all nodes, secret share of node i matches public share i+1 in every node\'s map, '
-          'every size-t subset of public shares recovers the group key and of secret shares threshold-signs validly under it, no '
-          'size-(t-1) subset does either (n<=6 all subsets in every ceremony; n>=7 all subsets in the first ceremony of each work unit, '
-          'the n cyclic windows in the others); group keys of all ceremonies and validators of a work unit pairwise distinct '
-          '(>=6 independent ceremonies per configuration). Thorough only: the complete dkg.Run (libp2p on loopback, lock files and keystores '
-          'read back from disk) for (n,t) in {(3,2),(4,3)}, 2 validators, two independent ceremonies each, same oracle',
- 'trusted': 'herumi/tbls primitives (SecretToPublicKey, RecoverPubkey, Sign, ThresholdAggregate, Verify) are the judge; the harness transport is '
-            'a reliable all-to-all barrier that checks message addressing like frostP2P but does not re-validate payloads (commitment count); '
-            'ceremonies that return an error on any node are skipped and noted (the property is conditional on success)',
- 'rule': 'one evaluation = one complete ceremony (n nodes, v validators) under one pair of barrier orders, fully judged; '
-         'distinct = (configuration, order family)',
- 'budget_s': {'quick': 100, 'thorough': 1500},
+          'reversed/reversed; map iteration pinned to rotation 0, 1 or left stock-random, cyclically over the cases. Thorough only: the '
+          'complete dkg.Run (libp2p on loopback, lock files and keystores read back from disk) for (n,t) in {(3,2),(4,3)}, 2 validators, two '
+          'independent ceremonies each. '
+          'PART TWO (production transport): each recipient has an arrival list over its 3(n-1) incoming messages; default = every message once in '
+          'sender order, in two variants (base 0: round 1 broadcasts, round 1 p2p shares, round 2 broadcasts; base 1: p2p shares before the '
+          'round 1 broadcasts); recipients are served round-robin, an entry is delivered as soon as its sender has produced it. Deviations, '
+          'each for both bases and every recipient: dup = any message delivered a second time (same bytes), the copy at ANY later position '
+          'of the list (L(L+1)/2 choices, L=3(n-1)); swap = any two entries exchanged (L(L-1)/2; includes a round 2 broadcast arriving while '
+          'the recipient is still in round 1 and casts/p2p shares of different senders interleaved); late = the recipient calls '
+          'runFrostParallel only after the first k=1..2(n-1) messages were handed to its callbacks; conc = any message handed to the '
+          'handler by two threads at once, all interleavings of the two calls with at most one preemption (thorough: all interleavings, '
+          '20 per message). QUICK: 0 deviations for every n in {3,4}, t in 2..n, v in {1,2} (both bases, map rotation 0/1/stock); 1 deviation: '
+          'dup, swap, late for n=3 (t 2..3, v 1..2) and n=4 (t 2..4, v=1), conc for n=3 (t 2..3, v=1) and n=4 (t=3, v=1); n=4 with v=2 '
+          'is capped to the default delivery in the quick tier. THOROUGH: dup, swap, late for n=3 (t 2..3, v 1..3), n=4 (t 2..4, v 1..2), '
+          'n=5 (t 2..5, v=1); conc for n=3 (v 1..2) and n=4 (v=1), all t; 2 deviations (dup/swap x dup/swap): n=3, t 2..3, v=1, every pair on '
+          'one recipient (second deviation enumerated on the list produced by the first, results identical to a <=1-deviation list or to '
+          'each other evaluated once) and every pair on two different recipients; no pairs for n>=4, no pairs containing late or conc. '
+          'ORACLE (both parts), on every ceremony in which every node returns without error, per validator: equal group key and equal '
+          'public shares 1..n on all nodes, secret share of node i matches public share i+1 in every node\'s map, every size-t subset of '
+          'public shares recovers the group key and of secret shares threshold-signs validly under it, no size-(t-1) subset does either '
+          '(n<=6 all subsets in every ceremony; n>=7 all subsets in the first ceremony of each work unit, the n cyclic windows in the '
+          'others); group keys of all ceremonies and validators of a work unit pairwise distinct. A ceremony in which a node returns an '
+          'error or panics, or which cannot complete, under a deviation is legal (the property is conditional on success) and only '
+          'counted; under the default delivery it marks the run as not exhaustive',
+ 'trusted': 'herumi/tbls primitives (SecretToPublicKey, RecoverPubkey, Sign, ThresholdAggregate, Verify) are the judge. Part one: the harness '
+            'transport is a reliable all-to-all barrier that checks message addressing like frostP2P but does not re-validate payloads. Part two: '
+            'the in-memory host replaces libp2p streams (stream = byte buffer; request/response exchanges are served at once, one-way '
+            'messages are captured), testing/synctest quiescence detection, for conc the vsync lock shim and the runtime determinism overlay '
+            '(map rotation 0, select in source order); cross-recipient timing is fixed to round-robin (recipients share no state); the dedup '
+            'counter reads the callbacks\' own "Ignoring duplicate" log line. Ceremonies that return an error on any node are skipped and '
+            'counted',
+ 'rule': 'one evaluation = one complete ceremony (n nodes, v validators) under one pair of barrier orders (part one) or one delivery schedule '
+         '/ one interleaving (part two), fully judged; distinct = (configuration, order family or deviation family, outcome class)',
+ 'budget_s': {'quick': 150, 'thorough': 1500},
  'gomaxprocs': 4}
-CHECK["assumptions"] = ENUMX_ASSUME
+CHECK["race_tests"] = {"dkg": "TestVerifRaceC11"}
+CHECK["assumptions"] = ENUMX_ASSUME + [
+    "part two, conc cases: " + SCHEDX_ASSUME[0],
+    "part two: deliveries are serialised (quiescence after each) except for the one concurrently repeated message of a conc case",
+]
